@@ -14,7 +14,7 @@ from lib import vf
 
 CFG = """SPECIFICATION %(spec)s
 CONSTANTS
-  KindOrder <- MCKindOrder
+  KindOrder <- %(ko)s
   DurOrder <- MCDurOrder
   Dur <- MCDur
   MaxServers = %(ms)d
@@ -33,7 +33,7 @@ WAIT_TICKS = 4
 
 
 def cfg(**k):
-    d = dict(spec="Spec", ms=2, mi=2, st=1, gid="FALSE")
+    d = dict(spec="Spec", ms=2, mi=2, st=1, gid="FALSE", ko="MCKindOrder")
     d.update(k)
     return CFG % d
 
@@ -50,6 +50,7 @@ def signature(sc):
 def stratified(scs, n, rnd):
     """n scenarios, as different from each other as the generated set allows: every listener kind x
     duration class first, then one per signature in random order."""
+    scs.sort(key=lambda x: json.dumps(x, sort_keys=True))   # TLC's workers print in no particular order
     rnd.shuffle(scs)
     by_sig = {}
     for sc in scs:
@@ -59,12 +60,12 @@ def stratified(scs, n, rnd):
     pairs = sorted({(i["srv"], i["dur"]) for sc in scs for i in sc["items"]})
     rnd.shuffle(pairs)
     for p in pairs:
-        cands = [s for s in by_sig if p in s[1] and s not in used and len(s[1]) >= 2]
+        cands = sorted(s for s in by_sig if p in s[1] and s not in used and len(s[1]) >= 2)
         if cands and len(chosen) < n:
             s = rnd.choice(cands)
             used.add(s)
             chosen.append(by_sig[s][0])
-    sigs = [s for s in by_sig if s not in used]
+    sigs = sorted(s for s in by_sig if s not in used)
     rnd.shuffle(sigs)
     for s in sigs:
         if len(chosen) >= n:
@@ -91,12 +92,17 @@ def run(ctx):
         "the grpc listener carries the options main.newGrpcProxy builds (codec, transparent handler, interceptor), reconstructed in the harness because package proxy cannot import main",
     ]
     # 1. the design on the model
-    mc = ctx.tlc("Shutdown_MC", cfg_text=cfg(ms=ctx.pick(2, 3), st=ctx.pick(1, 1)), workers=8, timeout=ctx.pick(300, 2400),
-                 coverage=ctx.thorough)
-    ctx.log("MC: %d states, %d distinct, depth %d, %.0fs" % (mc.generated, mc.distinct, mc.depth, mc.wall))
+    mc = ctx.tlc("Shutdown_MC", cfg_text=cfg(ms=2, st=ctx.pick(1, 2)), workers=8, timeout=ctx.pick(300, 1200), coverage=ctx.thorough)
+    ctx.log("MC (<=2 of 6 kinds): %d states, %d distinct, depth %d, %.0fs" % (mc.generated, mc.distinct, mc.depth, mc.wall))
     if not ctx.need_tlc_ok(mc, "Shutdown MC"):
         return
     ctx.cover("mc", states=mc.distinct, transitions=mc.generated)
+    if ctx.thorough:
+        mc3 = ctx.tlc("Shutdown_MC", cfg_text=cfg(ms=3, st=1, ko="MCKindOrder4"), workers=8, timeout=1500)
+        ctx.log("MC (<=3 of 4 kinds): %d states, %d distinct, depth %d, %.0fs" % (mc3.generated, mc3.distinct, mc3.depth, mc3.wall))
+        if not ctx.need_tlc_ok(mc3, "Shutdown MC, three listeners"):
+            return
+        ctx.cover("mc3", states=mc3.distinct, transitions=mc3.generated)
     if ctx.thorough and set(mc.coverage0) & set(ACTIONS):
         ctx.inconclusive("actions never taken: %s" % sorted(set(mc.coverage0) & set(ACTIONS)))
         return
